@@ -85,35 +85,51 @@ theorem lt_step_counters (s : Lt) (hasPath) (k : ScenKey) (ret) (bg : Bool) (i :
 
 /-! ## libtest: names, and the started/result pairing -/
 
-/-- For a feature WITH a path the test name is a function of (feature, rule, scenario, retries, step)
-    only — the writer state does not enter: a `started` record and its result record carry the same name. -/
-theorem lt_name_stable (s s' : Lt) (hasPath : Nat → Bool) (k : ScenKey) (ret) (st : LtStep) (h : hasPath k.feat = true) :
+/-- The test name is a function of (feature, rule, scenario, retries, step) and — for a feature WITHOUT a path — of the
+    running number of path-less features, which only a `Feature::Started` changes; computing a name does not change the
+    writer's state (since the `fix:` for F-C14a: before, every call bumped the number). -/
+theorem lt_name_stable (s s' : Lt) (hasPath : Nat → Bool) (k : ScenKey) (ret) (st : LtStep)
+    (h : hasPath k.feat = true ∨ s'.featuresWithoutPath = s.featuresWithoutPath) :
     (s.name hasPath k ret st).2 = (s'.name hasPath k ret st).2 ∧ (s.name hasPath k ret st).1 = s := by
-  simp [Lt.name, h]
+  rcases h with h | h
+  · simp [Lt.name, h]
+  · by_cases hp : hasPath k.feat = true <;> simp [Lt.name, hp, h]
 
-/-- **started/result pairing (partial)**: for features with a path, a step's Started event followed by
-    its result event yields `started n` and a result record with the SAME name `n`. -/
-theorem lt_started_paired_partial (s : Lt) (hasPath : Nat → Bool) (k : ScenKey) (ret) (i : Nat) (r : StepRes)
-    (h : hasPath k.feat = true) (hr : r ≠ .started) :
+/-- **started/result pairing**: for EVERY feature (with or without a path), a step's Started event followed by its
+    result event yields `started n` and a result record with the SAME name `n`. -/
+theorem lt_started_paired (s : Lt) (hasPath : Nat → Bool) (k : ScenKey) (ret) (i : Nat) (r : StepRes)
+    (hr : r ≠ .started) :
     ∃ n res, (s.expandAll hasPath [.scen k ret (.step i .started), .scen k ret (.step i r)]).2 = [.started n, res] ∧
       (res = .ok n ∨ res = .failed n ∨ res = .ignored n) := by
-  refine ⟨⟨k.feat, none, k.rule, k.scen, retryOf ret, .step false i⟩, ?_⟩
-  cases r with
-  | started => exact absurd rfl hr
-  | passed => exact ⟨_, by simp [Lt.expandAll, Lt.expand, Lt.expand.stepRec, Lt.name, h], Or.inl rfl⟩
-  | skipped => exact ⟨_, by simp [Lt.expandAll, Lt.expand, Lt.expand.stepRec, Lt.name, h], Or.inr (Or.inr rfl)⟩
-  | failed err =>
-    refine ⟨_, ?_, Or.inr (Or.inl rfl)⟩
-    simp only [Lt.expandAll, Lt.expand, Lt.expand.stepRec, Lt.name, h, if_true]
-    split <;> simp
+  by_cases h : hasPath k.feat = true
+  · refine ⟨⟨k.feat, none, k.rule, k.scen, retryOf ret, .step false i⟩, ?_⟩
+    cases r with
+    | started => exact absurd rfl hr
+    | passed => exact ⟨_, by simp [Lt.expandAll, Lt.expand, Lt.expand.stepRec, Lt.name, h], Or.inl rfl⟩
+    | skipped => exact ⟨_, by simp [Lt.expandAll, Lt.expand, Lt.expand.stepRec, Lt.name, h], Or.inr (Or.inr rfl)⟩
+    | failed err =>
+      refine ⟨_, ?_, Or.inr (Or.inl rfl)⟩
+      simp only [Lt.expandAll, Lt.expand, Lt.expand.stepRec, Lt.name, h, if_true]
+      split <;> simp
+  · refine ⟨⟨k.feat, some s.featuresWithoutPath, k.rule, k.scen, retryOf ret, .step false i⟩, ?_⟩
+    cases r with
+    | started => exact absurd rfl hr
+    | passed => exact ⟨_, by simp [Lt.expandAll, Lt.expand, Lt.expand.stepRec, Lt.name, h], Or.inl rfl⟩
+    | skipped => exact ⟨_, by simp [Lt.expandAll, Lt.expand, Lt.expand.stepRec, Lt.name, h], Or.inr (Or.inr rfl)⟩
+    | failed err =>
+      refine ⟨_, ?_, Or.inr (Or.inl rfl)⟩
+      simp only [Lt.expandAll, Lt.expand, Lt.expand.stepRec, Lt.name, h, Bool.false_eq_true, if_false]
+      split <;> simp
 
 def kx : ScenKey := ⟨0, none, 1⟩
 
-/-- **The pairing is false for a feature without `path`** (finding F-C14a): the running number is bumped
-    on every call, so the `started` record is named `… 1` and its result `… 2`. -/
-theorem lt_paired_false :
-    ((({} : Lt).expandAll (fun _ => false) [.scen kx none (.step 0 .started), .scen kx none (.step 0 .passed)]).2) =
-      [.started ⟨0, some 1, none, 1, none, .step false 0⟩, .ok ⟨0, some 2, none, 1, none, .step false 0⟩] := by
+/-- regression for F-C14a (fixed): a path-less feature's `started` record and its result carry the same number, and two
+    path-less features get different numbers -/
+theorem lt_pathless_features_numbered :
+    ((({} : Lt).expandAll (fun _ => false) [.featStarted 0, .scen kx none (.step 0 .started), .scen kx none (.step 0 .passed),
+        .featFinished 0, .featStarted 5, .scen ⟨5, none, 6⟩ none (.step 0 .started)]).2) =
+      [.started ⟨0, some 1, none, 1, none, .step false 0⟩, .ok ⟨0, some 1, none, 1, none, .step false 0⟩,
+       .started ⟨5, some 2, none, 6, none, .step false 0⟩] := by
   decide
 
 /-! ## libtest: exactly the facts of the stream -/
